@@ -37,17 +37,29 @@ class SymKernel(object):
         from vlib.pysym import core
         import z3
         argv = []
-        for a in args:
+        fn = self.m.mod.funcs.get(fname)
+        for i, a in enumerate(args):
+            pt = fn.params[i][0] if fn is not None and i < len(fn.params) else None
+            w = pt.bits if pt is not None and pt.k == 'int' else 64
             if isinstance(a, core.SymInt):
                 # C size_t / unsigned arguments: the harness passes non-negative values
                 e = a.e
-                w = 64
                 e = z3.Extract(w - 1, 0, e) if a.w > w else (z3.ZeroExt(w - a.w, e) if a.w < w else e)
                 argv.append(e)
+            elif type(a) is int and pt is not None and pt.k == 'int':
+                argv.append(a & ((1 << w) - 1))
             else:
                 argv.append(a)
         n_ev = len(self.m.mem_events)
-        r = self.m.call(fname, argv)
+        try:
+            r = self.m.call(fname, argv)
+        except self.exe.PathDead:
+            if len(self.m.mem_events) > n_ev and self.env is not None:
+                self.check_memory_safe("memory safety of %s()" % fname)
+            if len(self.m.mem_events) > n_ev:
+                k, d, _ = self.m.mem_events[-1]
+                raise core.Inconclusive("memory-safety event inside bridged C call %s: %s %s" % (fname, k, d))
+            raise core.PathAbort()
         if len(self.m.mem_events) > n_ev and self.env is not None:
             # a feasible path of this call performed an illegal access: that path was cut, so report now
             self.check_memory_safe("memory safety of %s()" % fname)
@@ -104,6 +116,13 @@ class SymKernel(object):
     def reset_written(self):
         for o in self.m.objs:
             o.written = False
+
+    def check_frame(self, allowed_prefixes, label="writes are confined to the object's own state and the designated output buffers"):
+        """frame condition: among caller-visible objects (arguments, module globals) only the designated
+        ones were written; module globals are never written (no writable statics => distinct objects
+        cannot influence each other, sequentially or from several threads)"""
+        bad = [n for n in self.written_objects() if not n.startswith(tuple(allowed_prefixes))]
+        self.env.check(not bad, label + (" [written: %s]" % ", ".join(bad) if bad else ""))
 
     def field_off(self, struct, idx):
         from . import ir
@@ -226,7 +245,7 @@ class RealKernel(object):
 
     def __init__(self, env, cfile, stubs=None, extra_macros=()):
         self.env = env
-        self.lib = _compile(cfile, extra_macros)
+        self.lib = _compile(cfile, extra_macros, sanitize=bool(os.environ.get('VERIF_ASAN')))
         self.cfile = cfile
         self.bufs = []
         self.stubs = stubs or {}
@@ -303,6 +322,9 @@ class RealKernel(object):
 
     def reset_written(self):
         pass
+
+    def check_frame(self, allowed_prefixes, label=""):
+        self.env.check(not self.corrupt, "read-only buffers unchanged")
 
     _OFFS = {}
 
